@@ -387,6 +387,9 @@ void World::exec_op(std::string const& ctx, toks const& op)
 	if (op_kernel(ctx, op)) return;
 	if (op_inject(ctx, op)) return;
 	if (op_net(ctx, op)) return;
+	if (op_http(ctx, op)) return;
+	if (op_proxy(ctx, op)) return;
+	if (op_socks(ctx, op)) return;
 	emit("C %s %s => bad-op", ctx.c_str(), join(op, 0).c_str());
 }
 
@@ -519,6 +522,7 @@ int World::execute()
 World::~World()
 {
 	g_muted = true;
+	srv.reset();
 	net.reset();
 	timers.clear();
 	nodes.clear();
